@@ -141,3 +141,77 @@ fn c30_avx2_window_one_batch() {
     assert!(l <= lb);
     assert!(ub <= r.min(8));
 }
+
+// ------------------------------------------------------------------------------------------------
+// Lane-wise reference definitions of the six AVX2 intrinsics the narrowing uses (Intel SDM semantics).
+// Used as Kani stubs because Kani's own models of these intrinsics are too slow for CBMC here (the same
+// obligation timed out at 40 min with them).  Trusted base: these 6 definitions (listed in evidence).
+// ------------------------------------------------------------------------------------------------
+#[cfg(target_arch = "x86_64")]
+mod avx2_ref {
+    use core::arch::x86_64::__m256i;
+    type V = [i32; 8];
+    fn to_v(a: __m256i) -> V { unsafe { core::mem::transmute(a) } }
+    fn from_v(v: V) -> __m256i { unsafe { core::mem::transmute(v) } }
+    pub fn set1_epi32(a: i32) -> __m256i { from_v([a; 8]) }
+    pub fn xor_si256(a: __m256i, b: __m256i) -> __m256i {
+        let (x, y) = (to_v(a), to_v(b));
+        from_v([x[0] ^ y[0], x[1] ^ y[1], x[2] ^ y[2], x[3] ^ y[3], x[4] ^ y[4], x[5] ^ y[5], x[6] ^ y[6], x[7] ^ y[7]])
+    }
+    pub unsafe fn loadu_si256(p: *const __m256i) -> __m256i { core::ptr::read_unaligned(p) }
+    fn m(c: bool) -> i32 { if c { -1 } else { 0 } }
+    pub fn cmpgt_epi32(a: __m256i, b: __m256i) -> __m256i {
+        let (x, y) = (to_v(a), to_v(b));
+        from_v([m(x[0] > y[0]), m(x[1] > y[1]), m(x[2] > y[2]), m(x[3] > y[3]), m(x[4] > y[4]), m(x[5] > y[5]), m(x[6] > y[6]), m(x[7] > y[7])])
+    }
+    pub fn cmpeq_epi32(a: __m256i, b: __m256i) -> __m256i {
+        let (x, y) = (to_v(a), to_v(b));
+        from_v([m(x[0] == y[0]), m(x[1] == y[1]), m(x[2] == y[2]), m(x[3] == y[3]), m(x[4] == y[4]), m(x[5] == y[5]), m(x[6] == y[6]), m(x[7] == y[7])])
+    }
+    /// bit i of the result = most significant bit of byte i; for 32-bit lanes holding 0 / -1 that is 4
+    /// identical bits per lane — computed per byte as the SDM defines it
+    pub fn movemask_epi8(a: __m256i) -> i32 {
+        let b: [u8; 32] = unsafe { core::mem::transmute(a) };
+        let bit = |i: usize| ((b[i] >> 7) as u32) << i;
+        (bit(0) | bit(1) | bit(2) | bit(3) | bit(4) | bit(5) | bit(6) | bit(7) | bit(8) | bit(9) | bit(10) | bit(11)
+            | bit(12) | bit(13) | bit(14) | bit(15) | bit(16) | bit(17) | bit(18) | bit(19) | bit(20) | bit(21) | bit(22)
+            | bit(23) | bit(24) | bit(25) | bit(26) | bit(27) | bit(28) | bit(29) | bit(30) | bit(31)) as i32
+    }
+}
+
+//@ props=C30 kind=bounded bound="one AVX2 batch: exactly 8 slots, all sorted prefix vectors and targets; intrinsics replaced by lane-wise reference definitions" timeout=1500
+/// window invariant of the AVX2 narrowing on one batch of 8 sorted prefixes (see c30_avx2_window_one_batch),
+/// with the six intrinsics stubbed by their lane-wise reference definitions
+#[cfg(target_arch = "x86_64")]
+#[kani::proof]
+#[kani::stub(core::arch::x86_64::_mm256_set1_epi32, avx2_ref::set1_epi32)]
+#[kani::stub(core::arch::x86_64::_mm256_xor_si256, avx2_ref::xor_si256)]
+#[kani::stub(core::arch::x86_64::_mm256_loadu_si256, avx2_ref::loadu_si256)]
+#[kani::stub(core::arch::x86_64::_mm256_cmpgt_epi32, avx2_ref::cmpgt_epi32)]
+#[kani::stub(core::arch::x86_64::_mm256_cmpeq_epi32, avx2_ref::cmpeq_epi32)]
+#[kani::stub(core::arch::x86_64::_mm256_movemask_epi8, avx2_ref::movemask_epi8)]
+#[kani::unwind(10)]
+fn c30_avx2_window_one_batch_ref() {
+    let mut pg = [0u8; LEAF_CONTENT_START + 8 * SLOT_SIZE];
+    let p: [u32; 8] = kani::any();
+    let mut i = 0;
+    while i < 8 {
+        if i + 1 < 8 { kani::assume(p[i] <= p[i + 1]); }
+        let o = LEAF_CONTENT_START + i * SLOT_SIZE;
+        let b = p[i].to_be_bytes();
+        pg[o] = b[0]; pg[o + 1] = b[1]; pg[o + 2] = b[2]; pg[o + 3] = b[3];
+        i += 1;
+    }
+    let target: u32 = kani::any();
+    let (l, r, _m) = unsafe { simd_prefix_search_avx2(&pg[..], target, 8) };
+    let mut lb = 8usize;
+    let mut ub = 8usize;
+    let mut k = 8usize;
+    while k > 0 {
+        k -= 1;
+        if p[k] >= target { lb = k; }
+        if p[k] > target { ub = k; }
+    }
+    assert!(l <= lb);
+    assert!(ub <= r.min(8));
+}
